@@ -644,8 +644,11 @@ impl CircuitBuilder {
     }
 
     pub fn push_panic_if(&mut self, cond: GateIndex, reason: PanicReason, meta: MetaInfo) {
-        if let Some(existing_panic) = self.panic_gates.cache.get(&cond) {
-            self.panic_gates.result = existing_panic.clone();
+        if self.panic_gates.cache.contains_key(&cond) {
+            // The condition is already part of the current panic record (it was pushed earlier on
+            // every path leading here), so pushing it again can neither cause a new panic nor
+            // change the location of the first one. The record must be left as it is: panics
+            // that were recorded since then would otherwise be lost.
             return;
         }
         let already_panicked = self.panic_gates.result.has_panicked;
@@ -714,16 +717,11 @@ impl CircuitBuilder {
         }: &CachedPanicResult,
     ) -> CachedPanicResult {
         let result = self.mux_uncached_panic(condition, t, f);
+        // Only conditions that were pushed on both paths are part of the merged record:
         let mut cache = HashMap::new();
-        for k in cache_t.keys().chain(cache_f.keys()) {
-            match (cache_t.get(k), cache_f.get(k)) {
-                (None, None) => {}
-                (None, Some(result)) | (Some(result), None) => {
-                    cache.insert(*k, result.clone());
-                }
-                (Some(t), Some(f)) => {
-                    cache.insert(*k, self.mux_uncached_panic(condition, t, f));
-                }
+        for k in cache_t.keys() {
+            if cache_f.contains_key(k) {
+                cache.insert(*k, result.clone());
             }
         }
         CachedPanicResult { result, cache }
